@@ -86,6 +86,10 @@ def run_path(uni, it, c, fn, info, key, rep):
     st.heap_sorts = {}
     for f, t in uni.fields.items():
         st.heap_sorts[f] = base_tag(t)
+    # ghost heap fields of non-reference sort (e.g. 'set[ref]') declared by
+    # the property module
+    for f, t in getattr(uni, "heap_extra", {}).items():
+        st.heap_sorts[f] = t
     cname = info.name if info else None
     fr = Frame(c.name, cname, c, env={})
     fr.fn_node = fn
